@@ -116,9 +116,69 @@ def shape_of(s):
     return tuple(len(l) for l in s["labels"])
 
 
+REUSE = {}      # spec key -> (DimArray, RA): set by the engine for the second pass of a case ("operate - edit in place - operate again"):
+                # the builders then hand out the SAME, already used and edited, object and the correspondingly edited reference
+LAST = {}       # spec key -> the DimArray built last for it (recorded while RECORD is on)
+RECORD = False
+
+
+def _key(s):
+    import json
+    return json.dumps(s, sort_keys=True, default=str)
+
+
 def build_ref(s):
+    if REUSE:
+        k = _key(s)
+        if k in REUSE:
+            return REUSE[k][1]
     vals = make_values(shape_of(s), s.get("vk", "f"), s.get("base", 1), s.get("nan", ()), s.get("enc", "coord"))
     return RA(s["dims"], s["labels"], vals, s.get("attrs"), s.get("axattrs"))
+
+
+def decoy_spec(s):
+    """another array that looks like `s` from a distance - same dims, sizes, kinds, first and last label of every axis - but has other labels in
+    between and other values; None when no axis has an interior label.  Running a case on the decoy first exposes anything the library remembers
+    under a key coarser than the full content (names, sizes, end points, object identities of freed arrays)"""
+    labels2, changed = [], False
+    for lab, kind in zip(s["labels"], s["kinds"]):
+        l2 = list(lab)
+        if len(l2) >= 4:
+            l2[1:-1] = l2[1:-1][::-1]
+            changed = True
+        elif len(l2) == 3:
+            new = (l2[1] + "_") if kind == "O" else (l2[1] + (0.25 if kind == "f" else 1))
+            if new not in l2:
+                l2[1] = new
+                changed = True
+        labels2.append(l2)
+    if not changed:
+        return None
+    return dict(s, labels=labels2, base=s.get("base", 1) + 1)
+
+
+def edit_in_place(a, ra, s, how):
+    """edit the array through the public API and return the correspondingly edited reference (None when the edit does not apply)"""
+    if not ra.ndim:
+        return None
+    if how == "swap_labels":
+        labels2, done = [], False
+        for i, (lab, kind) in enumerate(zip(ra.labels, s["kinds"])):
+            l2 = list(lab)
+            if len(l2) >= 2 and type(a.axes[i]) is Axis:
+                l2[0], l2[1] = l2[1], l2[0]
+                a.set_axis(np_labels(l2, kind), axis=i)
+                done = True
+            labels2.append(l2)
+        return RA(ra.dims, labels2, ra.vals, ra.attrs, ra.axattrs) if done else None
+    if how == "assign_cell":
+        if ra.vals.dtype.kind not in "fi" or not ra.vals.size:
+            return None
+        a.put(tuple(l[0] for l in ra.labels), 7, indexing="label")
+        v2 = ra.vals.copy()
+        v2[(0,) * ra.ndim] = 7
+        return RA(ra.dims, ra.labels, v2, ra.attrs, ra.axattrs)
+    raise ValueError(how)
 
 
 def _axes(s, labels=None):
@@ -137,6 +197,18 @@ VSHIFT = 0     # set by the engine from case['vshift'] (thorough tier of modules
 
 
 def build_impl(s):
+    if REUSE or RECORD:
+        k = _key(s)
+        if k in REUSE:
+            return REUSE[k][0]
+        a = _build_impl(s)
+        if RECORD:
+            LAST[k] = a
+        return a
+    return _build_impl(s)
+
+
+def _build_impl(s):
     """DimArray for a spec; harness constructors always pass ndarrays and Axis objects"""
     var = s.get("var", "fresh")
     if VSHIFT and var != "fresh":
@@ -211,6 +283,25 @@ def build_impl(s):
                 else:
                     for j, v in enumerate(np_labels(l, k)):
                         a.axes[i][j] = v
+        elif var == "rslice":
+            # a REVERSED slice of a bigger array that was used before (sorted, re-indexed, aligned, sliced by label): what the library
+            # remembers about the parent's axes (ordering) must not be handed to a child whose labels run the other way
+            big_labels = [[extra_label(l, k)] + list(l)[::-1] for l, k in zip(s["labels"], s["kinds"])]
+            big = np.zeros([len(l) for l in big_labels], dtype=vals.dtype)
+            if vals.dtype == object:
+                big[...] = "pad"
+            big[tuple(slice(1, n + 1) for n in vals.shape)] = vals[tuple(slice(None, None, -1) for _ in vals.shape)]
+            b = DimArray(big, axes=_axes(s, big_labels))
+            for i, ax in enumerate(b.axes):
+                try:
+                    ax.is_monotonic()
+                    b.sort_axis(axis=i)
+                    b.reindex_axis(np_labels(big_labels[i][::-1], s["kinds"][i]), axis=i)
+                    b + b.take_axis([0], axis=i, indexing="position")
+                    b.take({ax.name: slice(big_labels[i][1], None)}, indexing="label")
+                except Exception:
+                    pass
+            a = b.take(tuple(slice(n, 0, -1) for n in vals.shape), indexing="position")
         elif var == "shallow":
             # a shallow copy (copy(shallow=True), the documented way "to overwrite attributes without affecting the initial array") of an array
             # that was USED under other labels - every along-axis method called once - and that then gets its own axes
@@ -238,7 +329,7 @@ def build_impl(s):
             da.rcParams["indexing.by"] = prev_by
 
 
-VARIANTS = ["fresh", "T", "slice", "take", "ds", "mono", "relabel", "shallow"]
+VARIANTS = ["fresh", "T", "slice", "take", "ds", "mono", "relabel", "shallow", "rslice"]
 
 
 def compare(impl, ref, rtol=0.0, attrs=False, dtype_kind=None, axattrs=False, what="result"):
